@@ -134,6 +134,9 @@ def wire_legality(log, ep, role, lenient_unknown=False):
         # continuation of our own fragmented frame
         if st.tx_frag:
             if f.type == R.PAYLOAD:
+                if st.over in ('after-own-cancel', 'after-own-error') and st.kind != 'channel':
+                    # the tail of a fragmented frame emitted after our own CANCEL / ERROR went out in the middle of it
+                    bad('nothing-after-termination', st, f, st.over + '-mid-fragment')
                 st.tx_frag = f.follows
                 if not f.follows:
                     if st.kind == 'fnf':
